@@ -104,7 +104,7 @@ def post_circle(token, args, kwargs, result):
     a = _bind('circle', args, kwargs)
     r = np.asarray(a['r'])
     R = float(a['radius'])
-    if r.ndim != 2:
+    if r.ndim != 2 or r.size == 0:
         return
     _judge('circle', result, {0: sh.circle_r(r, R, eps=BAND * max(abs(R), 1e-300))},
            {'fn': 'circle', 'radius': R, 'shape': r.shape}, 'r<=radius')
@@ -113,7 +113,7 @@ def post_circle(token, args, kwargs, result):
 def post_annulus(token, args, kwargs, result):
     a = _bind('annulus', args, kwargs)
     r = np.asarray(a['r'])
-    if r.ndim != 2:
+    if r.ndim != 2 or r.size == 0:
         return
     rin, rout = float(a['rin']), float(a['rout'])
     _judge('annulus', result, {0: sh.annulus_r(r, rin, rout, eps=BAND * max(abs(rout), 1e-300))},
@@ -123,7 +123,7 @@ def post_annulus(token, args, kwargs, result):
 def post_offset_circle(token, args, kwargs, result):
     a = _bind('offset_circle', args, kwargs)
     x, y = np.asarray(a['x']), np.asarray(a['y'])
-    if x.ndim != 2:
+    if x.ndim != 2 or x.size == 0:
         return
     R = float(a['radius'])
     c = tuple(float(v) for v in a['center'])
@@ -134,7 +134,7 @@ def post_offset_circle(token, args, kwargs, result):
 def post_polygon(token, args, kwargs, result):
     a = _bind('regular_polygon', args, kwargs)
     x, y = np.asarray(a['x']), np.asarray(a['y'])
-    if x.ndim != 2:
+    if x.ndim != 2 or x.size == 0:
         return
     n, R, rot = int(a['sides']), float(a['radius']), float(a['rotation'])
     c = tuple(float(v) for v in a['center'])
@@ -150,7 +150,7 @@ def post_polygon(token, args, kwargs, result):
 def post_rectangle(token, args, kwargs, result):
     a = _bind('rectangle', args, kwargs)
     x, y = np.asarray(a['x']), np.asarray(a['y'])
-    if x.ndim != 2:
+    if x.ndim != 2 or x.size == 0:
         return
     w = float(a['width'])
     h = w if a['height'] is None else float(a['height'])
@@ -166,7 +166,7 @@ def post_rectangle(token, args, kwargs, result):
 def post_ellipse(token, args, kwargs, result):
     a = _bind('rotated_ellipse', args, kwargs)
     x, y = np.asarray(a['x']), np.asarray(a['y'])
-    if x.ndim != 2:
+    if x.ndim != 2 or x.size == 0:
         return
     A, B, ang = float(a['width_major']), float(a['width_minor']), float(a['major_axis_angle'])
     eps = BAND * A
@@ -180,7 +180,7 @@ def post_ellipse(token, args, kwargs, result):
 def post_spider(token, args, kwargs, result):
     a = _bind('spider', args, kwargs)
     x, y = np.asarray(a['x']), np.asarray(a['y'])
-    if x.ndim != 2:
+    if x.ndim != 2 or x.size == 0:
         return
     v, w = int(a['vanes']), float(a['width'])
     rot = float(a['rotation'])
